@@ -1,7 +1,7 @@
 (* C14/Property.v — property theorems only. *)
 From Coq Require Import String Ascii List Bool.
 From Coq Require Import ZArith.
-From Verif Require Import Base.Str Base.Py Base.Py2 Base.Percent Base.Base64 Base.Html Base.Query C14.Model C14.Spec C14.Proofs C14.Source C14.Source2.
+From Verif Require Import Base.Str Base.Py Base.Py2 Base.Percent Base.Base64 Base.Html Base.Query C14.Model C14.Spec C14.Proofs C14.FedProofs C14.Source C14.Source2.
 From VerifGen Require Import C14Src C14Src2.
 Import ListNotations.
 
@@ -188,6 +188,77 @@ Theorem c14_artifact_spec_reflect : forall x dest, art_spec_b x dest = true <-> 
 Proof. exact art_spec_b_iff. Qed.
 Print Assumptions c14_artifact_spec_reflect.
 
+(* ---- artifacts through the resolver's metadata: from the metadata DOCUMENTS (any number of documents, any
+   number of entities per document, any document order; SP and IdP roles, several descriptors per role) over
+   Entity.sourceid (InMemoryMetaData.construct_source_id, MetadataStore.construct_source_id) to
+   Entity.artifact2destination *)
+
+(* the SourceID table: with distinct entityIDs and no SHA-1 collision among them, every entity that publishes an
+   ArtifactResolutionService in some role sits in the table under its own SourceID with its OWN record ... *)
+Theorem c14_source_id_table_complete : forall (sha1 : string -> string) (fed : federation) (e : fent),
+  NoDup (map fe_eid (concat fed)) ->
+  (forall a b, In a (map fe_eid (concat fed)) -> In b (map fe_eid (concat fed)) -> sha1 a = sha1 b -> a = b) ->
+  In e (concat fed) -> ent_has_ars e = true ->
+  assoc (sha1 (fe_eid e)) (store_source_id sha1 fed) = Some (parse_ent e).
+Proof. exact store_complete. Qed.
+Print Assumptions c14_source_id_table_complete.
+
+(* ... and every entry of the table is the record of an entity of the metadata, filed under that entity's SourceID *)
+Theorem c14_source_id_table_sound : forall (sha1 : string -> string) (fed : federation) sid v,
+  assoc sid (store_source_id sha1 fed) = Some v ->
+  exists e, In e (concat fed) /\ sha1 (fe_eid e) = sid /\ parse_ent e = v /\ ent_has_ars e = true.
+Proof. exact store_origin. Qed.
+Print Assumptions c14_source_id_table_sound.
+
+(* outside finding class 1 (index >= 256, open) - and, since fbf0c2eb, for every legal spelling of the index
+   attribute (class 6 is repaired: no premise about spelling) -: the
+   artifact resolves to the ISSUER's endpoint with the index it was created with, to nobody else's endpoint and to
+   no other index; an artifact of an unknown issuer resolves to nobody's endpoint *)
+Theorem c14_artifact_federation : forall (sha1 : string -> string),
+  (forall e, String.length (sha1 e) = 20) ->
+  forall x handle,
+  idx_ok (f_idx x) = true ->
+  (forall a b, In a (f_eid x :: map fe_eid (fed_ents x)) -> In b (f_eid x :: map fe_eid (fed_ents x)) ->
+               sha1 a = sha1 b -> a = b) ->
+  artfed_spec x (resolve_in sha1 (f_fed x) (f_role x) (create_artifact sha1 (f_eid x) handle (f_idx x))).
+Proof. exact artfed_holds. Qed.
+Print Assumptions c14_artifact_federation.
+
+(* the same for every sequence of constructions / metadata reloads and resolutions on a long-lived resolver:
+   each resolution is right with respect to the metadata loaded most recently *)
+Theorem c14_artifact_federation_sequences : forall (sha1 : string -> string),
+  (forall e, String.length (sha1 e) = 20) ->
+  forall ops cur, seq_guard sha1 cur ops -> seq_spec cur ops (run_fed sha1 cur ops).
+Proof. exact artfed_seq_holds. Qed.
+Print Assumptions c14_artifact_federation_sequences.
+
+(* finding class 6 (repaired by fbf0c2eb): index="01" in the metadata, artifact created with index 1 -> the code
+   before the repair (text comparison, resolve_in_v0) found no destination ... *)
+Theorem c14_artifact_index_spelling_v0_refuted : forall (sha1 : string -> string),
+  (forall e, String.length (sha1 e) = 20) ->
+  exists x handle,
+    idx_ok (f_idx x) = true /\
+    (forall a b, In a (f_eid x :: map fe_eid (fed_ents x)) -> In b (f_eid x :: map fe_eid (fed_ents x)) ->
+                 sha1 a = sha1 b -> a = b) /\
+    spelling_ok x = false /\
+    ~ artfed_spec x (resolve_in_v0 sha1 (f_fed x) (f_role x) (create_artifact sha1 (f_eid x) handle (f_idx x))).
+Proof. exact artfed_v0_refuted. Qed.
+Print Assumptions c14_artifact_index_spelling_v0_refuted.
+
+(* ... and the code as it is now resolves that witness to the issuer's endpoint *)
+Theorem c14_artifact_index_spelling_now : forall (sha1 : string -> string),
+  (forall e, String.length (sha1 e) = 20) ->
+  forall handle,
+    resolve_in sha1 (f_fed spelling_witness) (f_role spelling_witness)
+               (create_artifact sha1 (f_eid spelling_witness) handle (f_idx spelling_witness))
+    = AOk (Some "https://a.example.org/ars").
+Proof. exact spelling_witness_now. Qed.
+Print Assumptions c14_artifact_index_spelling_now.
+
+Theorem c14_artifact_federation_spec_reflect : forall x dest, artfed_spec_b x dest = true <-> artfed_spec x dest.
+Proof. exact artfed_spec_b_iff. Qed.
+Print Assumptions c14_artifact_federation_spec_reflect.
+
 (* tie to the source TEXT: pack.add_query as translated from /repo's current source on this run
    (coq/gen/C14Src.v, harness/py2coq.py) computes the model's add_query for every destination and query *)
 Theorem c14_source_add_query : forall loc q, src_add_query (PStr loc) (PStr q) = PStr (add_query loc q).
@@ -281,14 +352,18 @@ Proof. exact src2_unravel_is_model. Qed.
 Print Assumptions c14_source2_unravel.
 
 Theorem c14_source2_artifact2destination :
-  forall (b64decode : pyval -> pyval) (int_base : pyval -> pyval -> pyval),
+  forall (b64decode : pyval -> pyval) (int_base : pyval -> pyval -> pyval) (int_dec str_isascii str_isdigit : pyval -> pyval),
   (forall s d, decode_str s = Some d -> b64decode (PStr s) = PStr d) ->
   (forall s, decode_str s = None -> exists n, b64decode (PStr s) = PExc n) ->
   (forall b, String.length b <= 2 ->
      int_base (PStr b) (PInt 16) = match int16_z b with Some z => PInt z | None => PExc "ValueError" end) ->
+  (forall s, str_isascii (PStr s) = PBool (Py2.all_ascii s)) ->
+  (forall s, Py2.all_ascii s = true ->
+     str_isdigit (PStr s) = PBool (match dec_value s with Some _ => true | None => false end)) ->
+  (forall s v, dec_value s = Some v -> int_dec (PStr s) = PInt (Z.of_nat v)) ->
   forall (sm : sourcemap) (art dname : string), sm_ok sm = true -> art_ascii art = true ->
     ares_is (artifact2destination sm art)
-            (src2_artifact2destination b64decode int_base (enc_self dname sm) (PStr art) (PStr dname)).
+            (src2_artifact2destination b64decode int_base int_dec str_isascii str_isdigit (enc_self dname sm) (PStr art) (PStr dname)).
 Proof. exact src2_artifact2destination_is_model. Qed.
 Print Assumptions c14_source2_artifact2destination.
 
